@@ -272,7 +272,13 @@ pub impl Key {
     }
 
     fn to_link(&self, text: String, relative_to: &str) -> String {
-        format!("[{}]({})", text, self.to_rel_link_url(relative_to))
+        // a destination that holds a space is only a destination between angle brackets
+        let url = self.to_rel_link_url(relative_to);
+        if url.contains(' ') {
+            format!("[{}](<{}>)", text, url)
+        } else {
+            format!("[{}]({})", text, url)
+        }
     }
 
     fn to_completion(
